@@ -109,7 +109,7 @@ OnStep ==
            pre == s.th[t].pc = Line.at /\ Enabled(s, t)
            stuckW == Line.to = "stuck" /\ s.th[t].pc = Line.at /\ CanQueue(s, t)
            stuckR == Line.to = "stuck" /\ s.th[t].pc = Line.at /\ NeedsSr(Line.at) /\ ~Enabled(s, t)
-           s2  == IF stuckW THEN Queue(s, t) ELSE IF pre THEN StepT(s, t) ELSE s
+           s2  == IF stuckW THEN Queue(s, t) ELSE IF pre THEN StepObs(s, t) ELSE s
            \* calls that start in this step see the value at invocation
            starts == Line.at = "call"
            curk(u) == IF oopi[u] <= Len(sc.threads[u]) THEN KeyOf(OpOf(u, oopi[u])) ELSE 0
